@@ -45,7 +45,7 @@ fn uncovered_on(l: &[GTx], d: NaiveDate, tk: &str) -> bool {
 fn gen_hostile(r: &mut Rng, base: &Ledger) -> Ledger {
     let mut l = base.clone();
     if l.is_empty() { return l; }
-    match r.below(7) {
+    match r.below(8) {
         5 => {
             // several disposals on different days all identified with one later purchase, then a further
             // sale before that purchase arrives (covered, or short by a few shares)
@@ -66,6 +66,29 @@ fn gen_hostile(r: &mut Rng, base: &Ledger) -> Ledger {
             let extra = left + Decimal::from(*r.pick(&[-1i64, 0, 0, 1, 5, 20]));
             if extra > Decimal::ZERO { l.push(GTx::new(d0 + Duration::days(30 + 2 * k + 1), &tk, Kind::Sell, extra, Decimal::TWO, Decimal::ZERO)); }
             if r.chance(1, 2) { l.push(GTx::new(back + Duration::days(60), &tk, Kind::Sell, h + Decimal::from(*r.pick(&[0i64, 1, 30])), Decimal::TWO, Decimal::ZERO)); }
+        }
+        6 => {
+            // an earlier sale identified with a repurchase still to come, then a second sale before it arrives
+            // with a SPLIT/UNSPLIT dated on that second sale's own day, on the day before or on the day after
+            // (the shares already spoken for must be restated in the units of the sale being checked)
+            let tk = l[0].ticker.clone();
+            let d0 = l.iter().map(|t| t.date).max().unwrap_or(l[0].date) + Duration::days(40);
+            let split = r.chance(1, 2);
+            let k = Decimal::from(*r.pick(&[2i64, 4, 5]));
+            let h = Decimal::from(*r.pick(&[100i64, 120, 200]));
+            let s1 = Decimal::from(*r.pick(&[20i64, 60, 80]));
+            l.push(GTx::new(d0, &tk, Kind::Buy, h, Decimal::ONE, Decimal::ZERO));
+            l.push(GTx::new(d0 + Duration::days(35), &tk, Kind::Sell, s1, Decimal::TWO, Decimal::ZERO));
+            let d2 = d0 + Duration::days(35 + r.range(2, 8));
+            l.push(GTx::new(d2 + Duration::days(*r.pick(&[0i64, 0, 0, -1, 1])), &tk, if split { Kind::Split } else { Kind::Unsplit }, k, Decimal::ZERO, Decimal::ZERO));
+            // the repurchase, in the units current when it is made, covers part or all of the first sale
+            let back_pre = (s1 / Decimal::from(*r.pick(&[1i64, 2]))).round_dp(0);
+            let back = if split { back_pre * k } else { back_pre / k };
+            // the second sale: exactly what is left, or a few shares more or fewer
+            let left = h - s1;
+            let s2 = (left + Decimal::from(*r.pick(&[0i64, 0, -1, 1, 10, -10]))).max(Decimal::ONE);
+            l.push(GTx::new(d2, &tk, Kind::Sell, s2, Decimal::TWO, Decimal::ZERO));
+            l.push(GTx::new(d2 + Duration::days(r.range(2, 12)), &tk, Kind::Buy, back, Decimal::from(3), Decimal::ZERO));
         }
         4 => {
             // a day with a purchase and a larger sale than purchase + holding, repurchase within 30 days
@@ -123,7 +146,7 @@ pub fn run(ctx: &mut Ctx) {
     cfg.oversell_pct = 8;
     let n = ctx.n(500, 30_000);
     let base_cases = matcher_cases(prop, ctx, &cfg, n);
-    ctx.ev.rule = "corpus + fixtures + generated ledgers without cost events, each also in a hostile variant (earliest purchases dropped; a sale row duplicated; sale + companion sale + repurchase within 30 days; sale straddling a split/unsplit; same-day purchase + sale larger than purchase + holding + repurchase within 30 days; several disposals on different days identified with one later purchase followed by a further sale before it arrives): the real calculate() accepts iff an independent cumulative-position check over the raw lines says every (date, security) is covered; a refusal names an uncovered security and the earliest uncovered date; the Lean model agrees on accept/reject, error kind, security and date. A sample of refused and accepted ledgers is also run through the real CLI (exit status, stdout, --output file). Non-trivial = uncovered ledgers, and covered ledgers containing a 30-day match; distinct by ledger text.".into();
+    ctx.ev.rule = "corpus + fixtures + generated ledgers without cost events, each also in a hostile variant (earliest purchases dropped; a sale row duplicated; sale + companion sale + repurchase within 30 days; sale straddling a split/unsplit; same-day purchase + sale larger than purchase + holding + repurchase within 30 days; several disposals on different days identified with one later purchase followed by a further sale before it arrives; an earlier sale identified with a repurchase still to come and a second sale before it with a SPLIT/UNSPLIT on, just before or just after that sale's day): the real calculate() accepts iff an independent cumulative-position check over the raw lines says every (date, security) is covered; a refusal names an uncovered security and the earliest uncovered date; the Lean model agrees on accept/reject, error kind, security and date. Known-finding class inexactRatio (D3: a SPLIT/UNSPLIT ratio with a prime factor other than 2 and 5) is probed with its witness and directed ledgers, by the oracle only. A sample of refused and accepted ledgers is also run through the real CLI (exit status, stdout, --output file). Non-trivial = uncovered ledgers, and covered ledgers containing a 30-day match; distinct by ledger text.".into();
     let ex = run_impl::wide_exemptions();
     let mut r = Rng::new(ctx.seed ^ 0xC05);
     let mut cli_budget: i64 = if ctx.tier == Tier::Quick { 24 } else { 300 };
@@ -134,6 +157,26 @@ pub fn run(ctx: &mut Ctx) {
         let hostile = gen_hostile(&mut r, &l);
         cases.push((format!("{name}/hostile"), hostile));
         cases.push((name, l));
+    }
+    // known finding D3 (class inexactRatio), probed with its witness and with directed ledgers; these are
+    // judged by the oracle only (the model's exact rationals accept them, as the property demands)
+    const D3: &str = "D3: quantities carried across a SPLIT/UNSPLIT whose ratio does not divide exactly are rounded to 28 digits, so a covered sale of exactly the remaining holding can be refused";
+    let mut probes: Vec<Ledger> = vec![vec![
+        GTx::new(ledger::d(2024, 1, 2), "AAA", Kind::Buy, Decimal::from(10), Decimal::ONE, Decimal::ZERO),
+        GTx::new(ledger::d(2024, 3, 1), "AAA", Kind::Sell, Decimal::from(5), Decimal::ONE, Decimal::ZERO),
+        GTx::new(ledger::d(2024, 3, 5), "AAA", Kind::Split, Decimal::from(3), Decimal::ZERO, Decimal::ZERO),
+        GTx::new(ledger::d(2024, 3, 10), "AAA", Kind::Buy, Decimal::from(10), Decimal::ONE, Decimal::ZERO),
+        GTx::new(ledger::d(2024, 6, 1), "AAA", Kind::Sell, Decimal::from(25), Decimal::ONE, Decimal::ZERO),
+    ]];
+    for _ in 0..ctx.n(12, 400) { probes.push(ledger::gen_claim_sum(&mut r)); }
+    for l in probes {
+        ctx.ev.evaluations += 1;
+        match (run_impl::impl_calc(&l, None, &ex), first_uncovered(&l)) {
+            (Ok(_), None) => ctx.ev.count("inexact-ratio:covered-accepted"),
+            (Err(e), None) if e.kind != "panic" && inexact_ratio_class(&l, "AAA") => { ctx.ev.count("inexact-ratio:covered-refused"); ctx.ev.known("inexactRatio", D3); }
+            (Err(e), _) => ctx.ev.violation("oracle", format!("inexact-ratio probe: {} {}", e.kind, e.detail), replay_text(prop, "oracle", "covered ledger refused", &l, &[])),
+            (Ok(_), Some(_)) => ctx.ev.violation("oracle", "inexact-ratio probe: uncovered sale accepted".into(), replay_text(prop, "oracle", "uncovered sale accepted", &l, &[])),
+        }
     }
     for (name, l) in cases {
         if has_cost_events(&l) || !well_formed(&l) || l.is_empty() { continue; }
@@ -169,6 +212,7 @@ pub fn run(ctx: &mut Ctx) {
             }
             (Err(e), None) => {
                 if e.kind == "panic" { ctx.ev.violation("crash", e.detail.clone(), replay_text(prop, "crash", &e.detail, &l, &[])); }
+                else if e.kind == "exceedsHolding" && inexact_ratio_class(&l, e.detail.split(' ').next().unwrap_or("")) { ctx.ev.known("inexactRatio", D3); }
                 else {
                     let mut f = |c: &Ledger| !has_cost_events(c) && well_formed(c) && first_uncovered(c).is_none() && matches!(run_impl::impl_calc(c, None, &ex), Err(e) if e.kind != "panic");
                     let small = ledger::shrink(&l, &mut f);
@@ -179,8 +223,10 @@ pub fn run(ctx: &mut Ctx) {
                 ctx.ev.violation("oracle", format!("uncovered ledger refused with an unrelated error: {} {}", e.kind, e.detail), replay_text(prop, "oracle", "wrong error", &l, &[format!("case {name}")]));
             }
         }
-        // correspondence: accept/reject, kind, security, date
-        if let Some(m) = ctx.model.as_mut() {
+        // correspondence: accept/reject, kind, security, date (not inside known-finding class D3, where the
+        // exact model accepts what the implementation's rounding refuses)
+        let d3 = matches!((&imp, &unc), (Err(e), None) if e.kind == "exceedsHolding" && inexact_ratio_class(&l, e.detail.split(' ').next().unwrap_or("")));
+        if let Some(m) = ctx.model.as_mut().filter(|_| !d3) {
             match run_impl::model_calc(m, &l, None, &ex) {
                 Err(e) => ctx.ev.violation("correspondence", format!("driver: {e}"), replay_text(prop, "correspondence", &e, &l, &[])),
                 Ok(mo) => {
